@@ -46,8 +46,8 @@ CLAIMS = {
          "TLC action property + trace validation with exact rational utilities"),
  "C15": ("exploration", "the same command lists on executors built under a matrix of feature sets, both header flavours and two compilers/standards; every trace is validated against the one specification (feature-dependent reports blanked per build) and the behaviours of all builds of a fixture are compared with each other", "4 C15",
          "trace validation of every build variant against one specification + cross-build comparison"),
- "C16": ("model_checking", "structure()[i].isActive = isActive(i) monitor and functional equality of activityHistory with the saturating-counter rule after every call", "4 C16",
-         "trace validation (monitor + functional)"),
+ "C16": ("model_checking", "the operational specification carries the logger (m.lg / m.log: HFSM2_LOG_STATE_METHOD before every wrapper, transitions incl. dropped ones, task / plan statuses, cancellations, select / utility / random resolutions with their rational values); an attached logger's record of every call is compared by kind and as one interleaved sequence, with the logger attached at construction, attached and detached mid-run, under verbose logging and under interface logging with states that define only some methods (fixture bare); attaching never changes any other projection; structure()[i].isActive = isActive(i) monitor and functional equality of activityHistory with the saturating-counter rule after every call; open finding D29 handled by a deviation switch", "4 C16",
+         "resynchronising trace validation (functional oracle incl. the logger) + monitor, with deviation switch"),
 }
 
 
